@@ -4,7 +4,7 @@ CHECK = {
              "{run event e in {0,1,2} to completion after reseed; run event e in {0,2} for k in {1,3} "
              "steps, abandon, reset_state(); warm_up()} on one Stepper, each followed by probing events "
              "0,1,2; configuration lattice: track order {none + 6 re-indexing orders} x action_times x "
-             "StatusChecker x slots {2,8} x along-step {linear+fluctuation, field+fluctuation}, rotated-"
+             "StatusChecker x slots {2,8} x along-step {linear+MSC+fluctuation, field+MSC+fluctuation}, rotated-"
              "daughter geometry, 3 primaries (gamma, e-, e+) per event; interaction outcomes are a fixed "
              "function of (event, track, step, particle, energy). Oracle: per-track step history hash of "
              "every completed event == the same event on a fresh state with TrackOrder::none. "
